@@ -182,17 +182,21 @@ def r5(ctx):
 def r6(ctx):
     P = ctx.P
     n = 0
+    wr = k2.push_wrappers(P)         # private helpers that push one entry per call: their call sites are the push sites
     for k, body in P.fns.items():
-        if body["crate"] != "chess_movegen" or "::promoted" in k:
+        if body["crate"] != "chess_movegen" or "::promoted" in k or k in wr:
             continue
         pushes = [(bi, t) for bi, t in P.calls(k) if t["f"].get("fn", "").endswith("ArrayVec::<T, CAP>::push_unchecked") or "push_unchecked" in t["f"].get("fn", "")
-                  or t["f"].get("fn", "").endswith("::push") and "ArrayVec" in t["f"].get("fn", "")]
+                  or t["f"].get("fn", "").endswith("::push") and "ArrayVec" in t["f"].get("fn", "") or T.strip_generics(t["f"].get("fn", "")) in wr]
         for bi, t in pushes:
             n += 1
             ctx.used_body(k)
             # the pushed value: LegalMovesAt { src, moves, promotion }
-            src_local = t["a"][1]["p"]["l"] if t["a"][1].get("k") in ("copy", "move") else None
+            via = wr.get(T.strip_generics(t["f"].get("fn", "")))
+            src_local = t["a"][1]["p"]["l"] if via is None and t["a"][1].get("k") in ("copy", "move") else None
             data = set()
+            if via is not None and t["a"][via].get("k") in ("copy", "move"):
+                data |= k2.origins(P, body, t["a"][via]["p"]["l"])
             if src_local is not None:
                 for kind, b2, d in k2.local_defs(body, src_local):
                     if kind == "stmt" and d["r"].get("k") == "agg" and d["r"].get("adt") == IT + "LegalMovesAt":
